@@ -513,8 +513,18 @@ func (g *gen) stepHostile() {
 }
 
 // bindArgs: mostly none; sometimes a headers-style table, rarely one with an invalid x-match
-func (g *gen) bindArgs() string {
-	switch g.r.Intn(12) {
+// Where the session restarts the broker the table is a function of the routing key: two bindings that differ only in
+// their arguments share one key of the store (known finding F21, decided at the level of the store by C09's own check),
+// and a session here would only meet that finding again.
+func (g *gen) bindArgs(key string) string {
+	n := g.r.Intn(12)
+	if focus == "restart" || focus == "routing" {
+		n = 0
+		for _, b := range []byte(key) {
+			n = (n*31 + int(b)) % 12
+		}
+	}
+	switch n {
 	case 0, 1:
 		return "x-match=any,a=1"
 	case 2:
@@ -733,7 +743,7 @@ func (g *gen) stepRandom() {
 		if g.r.Chance(1, 2) {
 			key = g.pick(keys)
 		}
-		g.do(fmt.Sprintf("QB %d %d %s %s %s %s %s", c, h, q, x, key, g.bindArgs(), g.b(1, 10)))
+		g.do(fmt.Sprintf("QB %d %d %s %s %s %s %s", c, h, q, x, key, g.bindArgs(key), g.b(1, 10)))
 	case k < 195: // unbind
 		q := g.existingQueue(sn)
 		x := g.existingExchange(sn, false)
@@ -741,7 +751,7 @@ func (g *gen) stepRandom() {
 		if g.r.Chance(1, 2) {
 			key = g.pick(keys)
 		}
-		g.do(fmt.Sprintf("QU %d %d %s %s %s %s", c, h, q, x, key, g.bindArgs()))
+		g.do(fmt.Sprintf("QU %d %d %s %s %s %s", c, h, q, x, key, g.bindArgs(key)))
 	case k < 470: // publish
 		g.uid++
 		var ex, key string
